@@ -37,12 +37,50 @@ def dump(res):
 
 # ---- generator ------------------------------------------------------------------------------
 
+def layout_nested(rng):
+    """non-disjoint periods inside one slice: 1-2 groups of 2-3 periods that share period_start and differ in
+    period_end (Q1 stub next to a half-year, year-to-date rows, quarter and year rows starting the same day; or
+    day-level ends). A development row is identified by the FULL (period_start, period_end). Evaluation dates of
+    the rows of one group interleave, follow each other or coincide."""
+    rows = []
+    y = rng.randrange(1995, 2030)
+    for g in range(rng.choice([1, 1, 2])):
+        ps = datetime.date(y + g, rng.choice([1, 1, 4, 7]), 1)
+        if rng.random() < 0.75:
+            lens = sorted(rng.sample([1, 3, 6, 12, 24], rng.choice([2, 2, 3])))
+            pes = [gen.add_months_int(ps, k - 1, end=True) for k in lens]
+        else:
+            pes = sorted({ps + datetime.timedelta(days=rng.randrange(0, 400)) for _ in range(3)})
+            if len(pes) < 2:
+                pes.append(pes[0] + ONE)
+        mode = rng.choice(["from_end", "common", "after"])
+        last = None
+        for pe in pes:
+            n_ev = rng.choice([1, 2, 3, 4])
+            if mode == "from_end":          # lags from each period's own end: evaluation dates interleave
+                base = pe
+            elif mode == "common":          # all rows observed at the same dates
+                base = pes[-1]
+            else:                           # each longer period starts being observed after the shorter one stopped
+                base = pe if last is None or pe > last else last + ONE
+            step = rng.choice([1, 3, 6, 12])
+            evs = sorted({gen.add_months_int(base, k * step, end=True) for k in range(n_ev)})
+            last = evs[-1]
+            rows.append((ps, pe, evs))
+    if rng.random() < 0.4:                  # plus an ordinary later period
+        ps = datetime.date(y + 3, 1, 1)
+        pe = datetime.date(y + 3, 12, 31)
+        rows.append((ps, pe, [gen.add_months_int(pe, 12 * k, end=True) for k in range(rng.choice([1, 2, 3]))]))
+    return rows
+
+
 def rand_cumulative(rng, force_kind=None):
     """cells (shuffled) of a valid cumulative triangle: 1-4 slices, regular / ragged / day-level
     periods, every field one kind (int / dyadic float / int64 array / float64 array) along the
-    triangle, `earned_premium` present or not, None-free, one key set per triangle."""
+    triangle, `earned_premium` present or not, None-free, one key set per triangle. Layout `nested`: periods of one
+    slice sharing period_start with different period_end."""
     n_slices = rng.choice([1, 1, 2, 2, 3, 4])
-    layout = rng.choice(["regular", "ragged", "ragged", "daily"])
+    layout = rng.choice(["regular", "ragged", "ragged", "daily", "nested"])
     cls = rng.choice([Cell, CumulativeCell, CumulativeCell])
     metas = gen.rand_metas(rng, n_slices, single_attr=rng.random() < 0.7)
     same_layout = rng.random() < 0.6
@@ -62,6 +100,8 @@ def rand_cumulative(rng, force_kind=None):
     def mk_rows():
         if layout == "daily":
             return gen.layout_daily(rng, n_evals=rng.choice([1, 2, 3, 4, 5]))
+        if layout == "nested":
+            return layout_nested(rng)
         shape = "ragged" if layout == "ragged" else rng.choice(["square", "triangle"])
         n_lags = rng.choice([1, 2, 3, 4, 5, 6])
         n_periods = rng.randrange(2, 6) if shape == "triangle" else rng.randrange(1, 5)
@@ -406,6 +446,61 @@ def sequence_case(ctx, rng, send, prime):
     return x_ref
 
 
+def constructor_refusals(ctx, rng, t, inc, send):
+    """(a) a cumulative triangle holding TWO cells at one coordinate (other values): the second one's increment
+    would have evaluation_date == prev_evaluation_date, which the IncrementalCell constructor refuses -> to_incremental
+    raises ValueError (model: `Cell.mk?` inside `toIncremental`).
+    (b) the constructor itself: refused with ValueError exactly when evaluation_date <= prev_evaluation_date;
+    `_skip_validation=True` builds the cell as given; `replace` on it validates again.
+    (c) a triangle holding such a non-validated cell: to_cumulative against the model."""
+    cells = list(t.cells)
+    # (a)
+    c = rng.choice(cells)
+    twin = c.replace(values={k: (v + 1) for k, v in c.values.items()})
+    st, vt = call(Triangle, cells + [twin])
+    if st == "ok":
+        r = call(lambda: vt.to_incremental())
+        d = dump(r)
+        vw = w_cells(vt.cells)
+        ctx.count("refuse/cum-duplicate-coordinate")
+        ctx.case(digest=None)
+        if r != ("err", "ValueError"):
+            ctx.fail("two cumulative cells at one coordinate: the zero-length increment (evaluation_date == "
+                     "prev_evaluation_date) must be refused by the IncrementalCell constructor with ValueError",
+                     {"cells": vw}, d)
+        send("toInc", vw, d, "to_incremental with a duplicated coordinate", expect_err="ValueError")
+    # (b)
+    ic = rng.choice(list(inc.cells))
+    for delta in (0, 1, rng.randrange(2, 400), -1):
+        prev = ic.evaluation_date + datetime.timedelta(days=delta) if delta >= 0 else ic.evaluation_date - ONE
+        want_refused = ic.evaluation_date <= prev
+        args = (ic.period_start, ic.period_end, prev, ic.evaluation_date, dict(ic.values), ic.metadata)
+        st, v = call(IncrementalCell, *args)
+        ctx.count(f"constructor/prev-ev={'0' if delta == 0 else '+' if delta > 0 else '-1'}")
+        ctx.evaluations += 1
+        case = {"cell": w_cells([ic])[0], "prev_evaluation_date": common.w_date(prev)}
+        if want_refused != (st == "err" and v == "ValueError"):
+            ctx.fail("IncrementalCell is refused with ValueError exactly when evaluation_date <= prev_evaluation_date",
+                     case, {"impl": v if st == "err" else "constructed"})
+        st, raw = call(IncrementalCell, *args, _skip_validation=True)
+        if st != "ok" or raw.prev_evaluation_date != prev or raw.evaluation_date != ic.evaluation_date:
+            ctx.fail("IncrementalCell(_skip_validation=True) must build the cell as given", case,
+                     {"impl": raw if st != "ok" else [str(raw.prev_evaluation_date), str(raw.evaluation_date)]})
+            continue
+        st2, v2 = call(lambda: raw.replace(values=dict(ic.values)))
+        if want_refused != (st2 == "err" and v2 == "ValueError"):
+            ctx.fail("replace() on a non-validated incremental cell validates the dates again", case,
+                     {"impl": v2 if st2 == "err" else "constructed"})
+        # (c)
+        if want_refused:
+            others = [x for x in inc.cells if x is not ic]
+            st3, vt = call(Triangle, others + [raw])
+            if st3 == "ok":
+                r = call(lambda: vt.to_cumulative())
+                ctx.count("refuse/inc-non-validated-cell: " + (r[1] if r[0] == "err" else "ok"))
+                send("toCum", w_cells(vt.cells), dump(r), "to_cumulative with a non-validated cell (evaluation_date <= prev)")
+
+
 # ---- correspondence -----------------------------------------------------------------------
 
 def run_stream(ctx, n_tri):
@@ -575,6 +670,10 @@ def run_stream(ctx, n_tri):
                 if to_m:
                     send("toCum", vw, d, f"to_cumulative on inconsistent fields ({tag})", expect_err="TriangleError")
 
+        # 6b. refusals by the IncrementalCell constructor (incremental.py:53-56): evaluation_date > prev_evaluation_date
+        if ti % 3 == 0 and len(t.cells) > 0:
+            constructor_refusals(ctx, rng, t, inc, send)
+
     # 7. a stream of directly generated complete incremental triangles (not obtained by conversion)
     for di in range(n_tri // 6):
         if enough():
@@ -666,12 +765,14 @@ if __name__ == "__main__":
         "C04", module="Bermuda.Properties.C04", driver_targets=["drv_c04"],
         correspondence=correspondence, level="proof",
         rule="random valid cumulative triangles (Cell or CumulativeCell; 1-4 slices sharing or not sharing the period "
-             "layout; regular square/triangle, ragged, day-level irregular periods; every field one of int / dyadic "
+             "layout; regular square/triangle, ragged, day-level irregular periods, nested periods sharing period_start; every field one of int / dyadic "
              "float / int64 array / float64 array; earned_premium present or not, constant or varying; key insertion "
              "order varied) -> to_incremental, to_cumulative, both round trips, identity on the target basis; every "
              "(quick: up to 8 per triangle) one-link-removed / previous-date-shifted / evaluation-date-shifted variant, "
              "every re-pointing of a link to an earlier non-adjacent evaluation date of the same row (quick: up to 4), "
-             "re-pointings to dates of other rows/slices and prev-date swaps across rows (sampled) "
+             "re-pointings to dates of other rows/slices and prev-date swaps across rows (sampled); constructor refusals "
+             "(duplicated coordinate -> ValueError in to_incremental; IncrementalCell with prev >= evaluation date, "
+             "_skip_validation path) "
              "and three inconsistent-field variants per basis must raise TriangleError; plus directly generated complete "
              "incremental triangles; plus the SEQUENCE stream (quick: 60 cases, half with cells sharing ndarray objects): "
              "identity conversion first and then the other direction on the SAME object, each conversion twice, again "
